@@ -9,6 +9,7 @@ import Plenc.JSONOut
 import Plenc.Intern
 import Plenc.RegistryTrace
 import Plenc.InternTrace
+import Plenc.BQTime
 /-
   Driver.Main — reads one op per line on stdin, runs the model's executable
   definitions, prints one canonical result line per op.  The Go harness runs the
@@ -372,6 +373,23 @@ def runOp (s : Sexp) : String :=
       let r := readVarUint (a ++ t)
       s!"{hexOf a} {sizeVarUint v} {r.1} {r.2}"
     | _, _ => "bad-op"
+  -- C05: the BigQuery timestamp codec. (bq SEC NSEC xTAG xTRAIL) / (bqread xDATA)
+  | .list [.atom "bq", .atom sec, .atom nsec, .atom tag, .atom trail] =>
+    match sec.toInt?, nsec.toInt?, parseHex tag, parseHex trail with
+    | some s, some ns, some tg, some tr =>
+      let body := BQTime.app s ns []
+      let rd := match BQTime.read (body ++ tr) with
+        | .ok ((s', ns'), n) => s!"ok {s'} {ns'} {n}"
+        | _ => "err"
+      s!"{BQTime.size s ns tg} {hexOf (BQTime.app s ns tg)} {BQTime.size s ns []} {hexOf body} {if BQTime.isOmitted s ns then 1 else 0} {rd}"
+    | _, _, _, _ => "bad-op"
+  | .list [.atom "bqread", .atom d] =>
+    match parseHex d with
+    | some d =>
+      (match BQTime.read d with
+       | .ok ((s', ns'), n) => s!"ok {s'} {ns'} {n}"
+       | _ => "err")
+    | none => "bad-op"
   | .list [.atom "varucap", .atom n, .atom pre, .atom _spare] =>
     match n.toNat?, pre.toNat? with
     | some v, some p =>
